@@ -16,12 +16,14 @@
 (***************************************************************************)
 EXTENDS Postings, TLC, Json, IOUtils, SequencesExt
 CONSTANTS MaxSeries, MaxMatchers, MaxHistory,
+          Lits,                      \* literals of = and != matchers ("c" is a value no series has)
+          MatcherNames,              \* label names used in matchers (n0, n1 exist in worlds; zz never does)
           SetAlts, ClsAlts,          \* alternative lists used for set / class regexes
-          HistNames                  \* histories longer than one query use matchers on these names only
+          HistNames, HistTypes       \* histories longer than one query use single matchers of these names and types
 
 (* values of the constants (a .cfg file cannot write tuples) *)
-SetAltsQuick == {<<"a">>, <<"a", "c">>, <<"", "a">>}
-ClsAltsQuick == {<<"a">>, <<"", "a">>}
+SetAltsQuick == {<<"a">>, <<"", "a">>}
+ClsAltsQuick == {<<"a">>}
 SetAltsThorough == {<<"a">>, <<"a", "b">>, <<"a", "c">>, <<"">>, <<"", "a">>, <<"c">>}
 ClsAltsThorough == {<<"a">>, <<"a", "b">>, <<"", "a">>, <<"c">>}
 
@@ -32,8 +34,6 @@ LsSeq == SetToSeq(LsSpace)
 WorldOf(I) == { [id |-> i, ls |-> [n \in { k \in {"n0", "n1"} : LsSeq[i][k] # "" } |-> LsSeq[i][n]]] : i \in I }
 Worlds == { WorldOf(I) : I \in { J \in SUBSET (1..Len(LsSeq)) : Cardinality(J) <= MaxSeries } }
 
-MatcherNames == {"n0", "n1", "zz"}
-Lits == {"", "a", "b", "c"}
 Patterns == { [kind |-> "any", alts |-> <<>>], [kind |-> "nonempty", alts |-> <<>>] }
             \cup { [kind |-> "set", alts |-> a] : a \in SetAlts }
             \cup { [kind |-> "cls", alts |-> a] : a \in ClsAlts }
@@ -43,7 +43,7 @@ RECURSIVE SetsUpTo(_)          \* non-empty sets of at most k matchers
 SetsUpTo(k) == IF k = 1 THEN { {m} : m \in Matchers }
                ELSE SetsUpTo(k - 1) \cup { S \cup {m} : S \in SetsUpTo(k - 1), m \in Matchers }
 MatcherSets == SetsUpTo(MaxMatchers)
-HistSets == { S \in MatcherSets : \A m \in S : m.name \in HistNames }
+HistSets == { {m} : m \in { x \in Matchers : x.name \in HistNames /\ x.type \in HistTypes } }
 
 VARIABLES world,     \* the block's series
           cache,     \* expanded-postings cache: set of <<matcher set, ids>>
@@ -57,20 +57,25 @@ Init == /\ world \in Worlds
         /\ last = <<>>
 
 Cached(ms) == { e \in cache : e[1] = ms }
-Query(ms, L) ==
-    /\ n < MaxHistory
-    /\ (n > 0 \/ cache # {}) => (ms \in HistSets /\ \A e \in cache : e[1] \in HistSets)
-    /\ LET hit == Cached(ms) # {}
-           ans == IF hit THEN (CHOOSE e \in Cached(ms) : TRUE)[2] ELSE ExpandNames(world, ms, L)
-       IN  /\ last' = <<ms, L, hit, ans>>
-           /\ cache' = IF hit THEN cache ELSE cache \cup {<<ms, ans>>}     \* stored after expansion / after the last batch
-    /\ n' = n + 1
-    /\ UNCHANGED world
-Evict == /\ cache # {}
+Answer(ms, L) ==
+    LET hit == Cached(ms) # {}
+        ans == IF hit THEN (CHOOSE e \in Cached(ms) : TRUE)[2] ELSE ExpandNames(world, ms, L)
+    IN  /\ last' = <<ms, L, hit, ans>>
+        /\ cache' = IF hit THEN cache ELSE cache \cup {<<ms, ans>>}     \* stored after expansion / after the last batch
+        /\ n' = n + 1
+        /\ UNCHANGED world
+(* the first query of a history ranges over the whole matcher universe ... *)
+FirstQuery == /\ n = 0 /\ cache = {}
+              /\ \E ms \in MatcherSets : \E L \in LazyChoices(world, ms) : Answer(ms, L)
+(* ... longer histories (cache hits, misses, evictions in between) over the HistNames matchers *)
+HistQuery == /\ n > 0 /\ n < MaxHistory
+             /\ \A e \in cache : e[1] \in HistSets
+             /\ last[1] \in HistSets
+             /\ \E ms \in HistSets : \E L \in LazyChoices(world, ms) : Answer(ms, L)
+Evict == /\ cache # {} /\ n < MaxHistory
          /\ \E e \in cache : cache' = cache \ {e}
          /\ UNCHANGED <<world, n, last>>
-Next == \/ \E ms \in MatcherSets : \E L \in LazyChoices(world, ms) : Query(ms, L)
-        \/ Evict
+Next == FirstQuery \/ HistQuery \/ Evict
 Spec == Init /\ [][Next]_vars
 
 (* -------- C10 (selection part) as invariants -------- *)
